@@ -73,6 +73,12 @@ CLAIMED = {
             "orthonormality, core = projection, TT left-orthogonality, PARAFAC2 projections/cross-products and the normalisation "
             "contract are checked on every returned object. Sampled, orders 2-5.",
             "Trusted: independent rank derivations for int/list specs; validate_*_rank for 'same'/fractions.", "DESIGN.md §2 C08"),
+    "C09": ("runtime error-bound monitor: decomposition error vs independently computed singular-value tails of the input's unfoldings",
+            "Seeded tensors (generic, exactly low multilinear/TT rank, rank-deficient, integer; orders 2-5) x rank vectors from all-ones "
+            "to beyond the mode sizes x exact SVD methods x HOOI sweeps x every TR start mode; the squared error of the real "
+            "decomposition must be ~0 when no tail is discarded, at most the sum of discarded tails and at least the largest single "
+            "tail (using the returned ranks), and returned ranks never exceed requested ones. Sampled.",
+            "Trusted: numpy.linalg.svd (float64) of explicit unfoldings; the Tucker/TT quasi-optimality theorems.", "DESIGN.md §2 C09"),
 }
 
 PENDING_REASON = "check not built yet in this session; see DESIGN.md §2 for the planned monitor"
